@@ -19,6 +19,8 @@ type v4Spec struct {
 	SPort    uint16 // meaningful only for UDP (17) / TCP (6)
 	DPort    uint16
 	MF       bool   // more-fragments flag
+	DF       bool   // don't-fragment flag
+	RF       bool   // reserved ("evil") flag bit
 	FragOff  uint16 // in 8-byte units
 	Extra    int    // extra payload bytes after the L4 header
 }
@@ -76,6 +78,12 @@ func (s v4Spec) bytes() []byte {
 	fl := s.FragOff & 0x1fff
 	if s.MF {
 		fl |= 0x2000
+	}
+	if s.DF {
+		fl |= 0x4000
+	}
+	if s.RF {
+		fl |= 0x8000
 	}
 	binary.BigEndian.PutUint16(b[6:], fl)
 	b[8] = 64
